@@ -1,10 +1,35 @@
 """C02 — Python-native bindings dispatch, convert and own objects as C++ would.
 
-specs PyDispatch (+MC, +Eval), PyObjects (+MC).  TLC enumerates overload sets and object
-histories and carries the reference results; the renderer writes class libraries, vf/pymod builds
-one extension module per batch (interrogate -python-native -> interrogate_module -> g++), a child
-interpreter (harness/c02_driver.py) performs the calls; g++ compiles the same calls natively to
-validate the reference (spec != g++ => MachineryError)."""
+specs  PyDispatch.tla (+ PyDispatchMC: enumeration, + PyDispatchEval: evaluation of chosen sets)
+       PyObjects.tla  (+ PyObjectsMC)
+
+dispatch  TLC enumerates overload sets step by step (parameter-category tuples, trailing defaults,
+          const methods, methods / static functions) and checks on EVERY call tuple of every set that
+          the transcribed mechanism (map_sets, collapse_default_remaps, count switch,
+          RemapCompareLess order with every admissible tie-break, three-phase parameter extraction,
+          error clearing) gives the reference result (C++ overload resolution on the corresponding
+          C++ argument types; OverflowError / TypeError rules) outside the listed deviation classes.
+          A fixed stratified selection of the sets (+ ANCHORS) is evaluated again by TLC, which dumps
+          every call with its reference result, C++ argument types, deviation classes and the
+          mechanism model's result.  The renderer writes one class library per batch (instrumented
+          bodies log the overload and the received values), vf/pymod builds the extension module
+          (interrogate -python-native -> interrogate_module -> g++), harness/c02_driver.py performs
+          the calls in a child interpreter and reports: overload log, return value, exception type,
+          reference-count deltas of the arguments, live-instance counters, ownership bits.
+          The same calls are compiled natively (SFINAE "callable?" + run) to validate CppSelect:
+          spec != g++ => MachineryError.
+objects   TLC enumerates call histories over a class Node (construct, return by value / borrowed /
+          const ref / this / static, pass to C++, non-const call, drop); after every step the driver
+          reports this_ownership / this_const / identity of every wrapper and the construction /
+          destruction counters, compared with the state carried by the spec.  thorough: deeper
+          histories by simulation, and everything again with the extension built with ASan.
+names     classNameFromCppName / methodNameFromCppName / checkKeyword / methodRenameDictionary are
+          transcribed below; a library laid out over an identifier grammar is built and dir() of the
+          module / classes / nested classes must be exactly the transcribed names; properties,
+          MAKE_SEQ, enums, constants, operators and keyword arguments are evaluated.
+findings  every disagreement is keyed by the deviation classes the SPEC assigns to the input (and, for
+          dispatch, by the spec's mechanism model disagreeing with the reference on that input): a
+          predicate over the input only.  finding_class_failed_of_members reports their precision."""
 import json, os, subprocess, sys, time
 from ..common import MachineryError, VERIF, HARNESS, NCPU
 from .. import build, tlc, run, pymod
@@ -903,7 +928,8 @@ def show_call(call):
 
 
 FINDING_CLASSES = ["C02-int-error-ignored", "C02-unsigned-wraps", "C02-bytes-accepted-as-string", "C02-overflow-cleared",
-                   "C02-bool-takes-number-overload", "C02-bool-shadows-const-overloads", "C02-longer-overload-first", "C02-extra-arguments-ignored"]
+                   "C02-bool-takes-number-overload", "C02-bool-shadows-const-overloads", "C02-longer-overload-first", "C02-extra-arguments-ignored",
+                   "C02-convertible-overload-first", "C02-range-check-before-instance-check"]
 
 
 def run_check(ctx):
